@@ -370,7 +370,22 @@ where
         let (new_laidx, n_pstack) =
             self.parser
                 .lr_cactus(None, laidx, laidx + 1, n.pstack.clone(), &mut None);
-        if n.pstack != n_pstack {
+        // If no lexeme was shifted, `n_pstack` is `n.pstack` after the reductions that the current
+        // lookahead triggers. Such a node can only be used as the end of a repair sequence (i.e.
+        // if those reductions lead to accept): were we to explore inserts or deletes from it, the
+        // repair sequence would have been found on a stack which `apply_repairs` -- which starts
+        // from the unreduced stack, and whose reductions depend on the lookahead at that point --
+        // cannot necessarily recreate, and we would report repairs that don't repair.
+        if new_laidx > laidx
+            || (n.pstack != n_pstack
+                && matches!(
+                    self.parser.stable.action(
+                        *n_pstack.val().unwrap(),
+                        self.parser.next_tidx(new_laidx)
+                    ),
+                    Action::Accept
+                ))
+        {
             let n_repairs = if new_laidx > laidx {
                 n.repairs.child(RepairMerge::Repair(Repair::Shift))
             } else {
